@@ -416,7 +416,11 @@ CaseRec ==
       exp |-> [kind |-> e.kind, q |-> e.q, term |-> e.term, bdq |-> e.bdq,
                rtol |-> Rtol(fn, mode), atol |-> Atol(fn),
                unit |-> ResultUnit(fn), dim |-> DimPairs(UnitTable[ResultUnit(fn)].dim),
-               warn |-> WarnExpect(fn, args), warned |-> warned],
+               warn |-> WarnExpect(fn, args), warned |-> warned,
+               \* the fixed-point inverse documents a refusal (NoConvergence); it is accepted only
+               \* where the iteration starts outside the correlation's range (w > 0.7)
+               refusal |-> IF fn = "density_from_concentration" /\ QLt(<<7, 10>>, args.w)
+                           THEN "NoConvergence" ELSE ""],
       cls |-> fn \o "-" \o mode.name \o (IF mode.consts THEN "+c" ELSE "") \o "-" \o RangeClass(fn, args) ]
 Emit == Done => PrintT(<<"CASE", ToJson(CaseRec)>>)
 =============================================================================
